@@ -88,6 +88,7 @@ type Options struct {
 	RateBacktick        int // backtick inside a string literal (breaks the generated raw string); default 40
 	RateInvalidDir      int // one deliberately invalid @genqlient placement; default 40
 	RateVarShadow       int // (Adversarial only) a variable named like an imported package; default 10
+	RateInnerCaseTwin   int // a member name that differs from another member of the same type only in the case of a non-first letter (userId / userID); default 40 (per member drawn)
 }
 
 // DefaultOptions returns the defaults, spelled out.
@@ -125,6 +126,7 @@ func (o Options) withDefaults() Options {
 	def(&o.RateBacktick, 40)
 	def(&o.RateInvalidDir, 40)
 	def(&o.RateVarShadow, 10)
+	def(&o.RateInnerCaseTwin, 40)
 	return o
 }
 
